@@ -38,7 +38,8 @@ func zeroTimeOf(m *model.State, key string) (int64, int64, bool) {
 func c11Small() *Scenario {
 	s := &Scenario{Name: "timing-small", Genesis: streamGenesis(), KeyTimeNs: true, AfterTx: streamTiming}
 	s.Actions = streamActions(time.Second)
-	s.Actions = append(s.Actions, timeSteps(800, 999_999_999*time.Nanosecond, 30*time.Second, 61*time.Second, 700*time.Second)...)
+	s.Actions = append(s.Actions, timeSteps(800, 700*time.Millisecond, 999_999_999*time.Nanosecond, 30*time.Second, 61*time.Second, 700*time.Second)...)
+	s.Actions = append(s.Actions, aroundZero()...)
 	return s
 }
 
